@@ -12,7 +12,7 @@ from qvm.memlayout import (
 )
 from .codegen import BaseCodeGen, BaseCode
 from .program import Label, LineNo, Program
-from .exceptions import InternalError
+from .exceptions import InternalError, CompileError, ErrorCode as EC
 from .evalctx import Routine
 from .utils import Empty
 from . import stmt, expr
@@ -858,8 +858,10 @@ def gen_lvalue_ref(node, code, codegen):
 
 def gen_code_for_conv(to_type, node, code, codegen):
     assert isinstance(to_type, expr.Type)
-    assert not node.type.is_array
-    assert not node.type.is_user_defined
+    if node.type.is_array or node.type.is_user_defined:
+        # a whole array or record where a statement needs a value
+        # (FOR i = 1 TO a, SOUND a, 1, RANDOMIZE a ...)
+        raise CompileError(EC.TYPE_MISMATCH, node=node)
     assert not to_type.is_array
     assert not to_type.is_user_defined
     if node.type != to_type:
@@ -1009,6 +1011,11 @@ def gen_lvalue(node, code, codegen):
 
     if node.implicit_decl and node.implicit_decl.type.is_array:
         gen_static_array_init(node.implicit_decl, code, codegen)
+
+    if node.type.is_user_defined and not node.type.is_array:
+        # a whole record where a statement needs a value (COLOR r,
+        # FOR i = r TO 2 ...)
+        raise CompileError(EC.TYPE_MISMATCH, node=node)
 
     base_var = node.get_base_variable()
     if base_var.is_global:
